@@ -188,6 +188,27 @@ func generate(p *Prog, prop string) *checkResult {
 			cr.warnings = append(cr.warnings, sk+": "+w)
 		}
 	}
+	// global invariants: proved of the package initialiser; no other function writes the globals
+	for pkgPath, invs := range p.cs.GlobalInvs {
+		var mine []Clause
+		for _, cl := range invs {
+			if prop == "" || containsStr(cl.Props, prop) {
+				mine = append(mine, cl)
+			}
+		}
+		if len(mine) == 0 {
+			continue
+		}
+		obls, info, err := p.globalInvObligations(pkgPath, mine, prop)
+		if err != nil {
+			cr.genErrors = append(cr.genErrors, err.Error())
+			cr.obls = append(cr.obls, &Obligation{Name: p.shortKey(pkgPath) + ".init/GENERATE", Class: "GENERATE", Expect: "unsat", Status: "failed",
+				Desc: err.Error(), Result: SolverResult{Solver: "govc", Answer: "generation-error"}})
+			continue
+		}
+		cr.obls = append(cr.obls, obls...)
+		cr.funcs = append(cr.funcs, info)
+	}
 	// lemmas
 	for _, lm := range p.cs.Lemmas {
 		if !containsStr(lm.Props, prop) {
